@@ -11,6 +11,7 @@ pub fn gen(tier: &str, seed: u64, out: &mut dyn FnMut(Value)) {
     gen_random(&mut rng, &cfg, if thorough { 200000 } else { 10000 }, "random rule set", (1, 6), out);
     let cfg2 = Cfg { max_rules: 8, dep_prob: (1, 2), n_events: 8, ..Cfg::default() };
     gen_random(&mut rng, &cfg2, if thorough { 100000 } else { 4000 }, "random rule set, dependency heavy", (1, 10), out);
+    gen_derived(&mut rng, if thorough { 20000 } else { 1500 }, "events served by derived getters", out);
     let cfg3 = Cfg { err_ops: false, quant_prob: (1, 2), match_on: false, ..Cfg::default() };
     gen_random(&mut rng, &cfg3, if thorough { 100000 } else { 4000 }, "random rule set, quantifier heavy, no errors", (0, 1), out);
 }
